@@ -299,7 +299,12 @@ def run(ctx):
         else:
             ctx.violation(describe(c), "prop: %s" % verdict, expected=expected, observed={"out": r["out"], "period": r["period"], "exc": r["exc"]},
                           extra={"full_case": c})
+    # the month-clamping arithmetic of this property is also what date_range / get_intersecting_periods are made of:
+    # Periods.tla is bound here (no listed property speaks about those helpers; mismatches are reported as model drift)
+    from .. import periodcheck
+    periods = periodcheck.run(ctx) if not ctx.replay else {}
     cov = {
+        "periods_helpers": periods,
         "states": mc.distinct, "transitions": mc.generated,
         "traces_validated_against_impl": len(cases) - sp,
         "evaluations": len(cases),
